@@ -892,14 +892,14 @@ func (e *c16Env) witnesses() {
 
 // ---- generators ----------------------------------------------------------------------------------------------------
 
-var c16Keys = []string{"moniker", "Moniker", "MONIKER", "username", "Username", "contact", "Contact", "avatar", "social", "x_1", "1bad", "bad-key", "k y", ""}
+var c16Keys = []string{"moniker", "Moniker", "MONIKER", "username", "Username", "contact", "Contact", "avatar", "social", "name", "user", "x_1", "1bad", "bad-key", "k y", ""}
 var c16Vals = []string{"alice", "bob", "carol", "dave", "erin", "frank", "Alice", "", "a b", "0123456789012345678901234567890123"}
-var c16KeyLists = []string{"moniker,username", "moniker,username,contact", "moniker", "moniker,contact", "Moniker,username", "", "moniker,username,avatar", "username", "moniker,username,contact,avatar", "moniker,,username", "moniker,1bad"}
+var c16KeyLists = []string{"moniker,username", "moniker,username,contact", "moniker", "moniker,contact", "Moniker,username", "", "moniker,username,avatar", "username", "moniker,username,contact,avatar", "moniker,,username", "moniker,1bad", "moniker,username,name", "moniker,username,user", "moniker,name,contact", "moniker,username,Name"}
 
 func (e *c16Env) pickKey() string {
 	rng := e.r.Rng
 	if rng.Intn(20) < 18 {
-		return c16Keys[rng.Intn(9)]
+		return c16Keys[rng.Intn(11)]
 	}
 	return c16Keys[rng.Intn(len(c16Keys))]
 }
@@ -967,10 +967,46 @@ func (e *c16Env) requestThenTouch(nLive int) {
 	}
 }
 
+// declareUniqueOverDuplicates: two addresses hold the same value under a key that is not declared unique yet (also
+// keys whose NAME is a fragment of the current list text, e.g. "name" / "user" inside "moniker,username"); then the
+// key is appended to the unique-key list. The change must be refused while the duplicate exists.
+func (e *c16Env) declareUniqueOverDuplicates(nLive int) {
+	rng := e.r.Rng
+	if nLive < 2 {
+		return
+	}
+	key := []string{"name", "user", "contact", "avatar", "social", "Name", "on"}[rng.Intn(7)]
+	cur, _ := e.k.GetNetworkProperty(e.ctx, govtypes.UniqueIdentityKeys)
+	for _, k := range strings.Split(cur.StrValue, ",") {
+		if strings.EqualFold(k, key) {
+			return // already unique: the registrar refuses the duplicate itself
+		}
+	}
+	a := rng.Intn(nLive)
+	b := (a + 1 + rng.Intn(nLive-1)) % nLive
+	val := e.pickVal()
+	if val == "" {
+		val = "dup"
+	}
+	if !e.register(a, [][2]string{{key, val}}) || !e.register(b, [][2]string{{key, val}}) {
+		return
+	}
+	list := cur.StrValue + "," + strings.ToLower(key)
+	if cur.StrValue == "" {
+		list = "moniker," + strings.ToLower(key)
+	}
+	e.setKeysSingle(list, rng.Intn(2) == 0)
+	e.r.Count("declare-unique-over-duplicates")
+}
+
 func (e *c16Env) randomOp(nLive int) {
 	rng := e.r.Rng
 	if rng.Intn(25) == 0 {
 		e.requestThenTouch(nLive)
+		return
+	}
+	if rng.Intn(40) == 0 {
+		e.declareUniqueOverDuplicates(nLive)
 		return
 	}
 	s := e.snap()
